@@ -77,6 +77,9 @@ class Gen:
         rows = self.rnd.randint(2, 3)
         cols = self.rnd.randint(2, 3)
         out = "{|\n"
+        if self.rnd.random() < 0.3:
+            # caption: text, an inline formula, more text (all of it belongs to the caption)
+            out += "|+ " + self.word(anc + ["Table"]) + " <math>x^2</math> " + self.word(anc + ["Table"]) + "\n"
         implicit_first_row = self.rnd.random() < 0.3      # the first row needs no leading |-
         for r in range(rows):
             if r or not implicit_first_row:
